@@ -770,6 +770,7 @@ func preNormalise(orig, cur *packages.Package, base map[string][]byte, rep *inli
 			nz.omapIteratorsIn(f)
 			nz.etaExpandIn(f)
 			nz.sinkDefersIn(f)
+			nz.libIdiomsIn(f)
 		}
 		if len(nz.changed) == 0 {
 			// the aggregate rewrites work on fully typed trees of their own round
@@ -1851,4 +1852,61 @@ func (nz *normaliser) sinkDefersIn(f *ast.File) {
 			nz.log = append(nz.log, "deferred call in a returning block of "+declKey(fd)+" placed before the return")
 		}
 	}
+}
+
+// ---- N9: equivalent spellings of library calls the rules know under one name ----
+//
+//	enc.AppendDecode(nil, b)   ->  enc.DecodeString(string(b))        (*base64.Encoding)
+//	enc.AppendEncode(nil, b)   ->  []byte(enc.EncodeToString(b))
+//	string(sc.Bytes())         ->  sc.Text()                          (*bufio.Scanner)
+func (nz *normaliser) libIdiomsIn(f *ast.File) {
+	isNamedPtr := func(t types.Type, pkg, name string) bool {
+		if p, ok := t.(*types.Pointer); ok {
+			t = p.Elem()
+		}
+		n, ok := t.(*types.Named)
+		return ok && n.Obj().Name() == name && n.Obj().Pkg() != nil && n.Obj().Pkg().Path() == pkg
+	}
+	astutil.Apply(f, nil, func(c *astutil.Cursor) bool {
+		ce, ok := c.Node().(*ast.CallExpr)
+		if !ok {
+			return true
+		}
+		// string(sc.Bytes())
+		if id, ok := ce.Fun.(*ast.Ident); ok && id.Name == "string" && len(ce.Args) == 1 {
+			if _, isB := nz.info.Uses[id].(*types.TypeName); isB || nz.info.Uses[id] == types.Universe.Lookup("string") {
+				if inner, ok := ce.Args[0].(*ast.CallExpr); ok && len(inner.Args) == 0 {
+					if sel, ok := inner.Fun.(*ast.SelectorExpr); ok && sel.Sel.Name == "Bytes" {
+						if tv, ok := nz.info.Types[sel.X]; ok && isNamedPtr(tv.Type, "bufio", "Scanner") {
+							c.Replace(&ast.CallExpr{Fun: &ast.SelectorExpr{X: sel.X, Sel: ast.NewIdent("Text")}})
+							nz.changed[f] = true
+							nz.log = append(nz.log, "string(scanner.Bytes()) written as scanner.Text()")
+							return true
+						}
+					}
+				}
+			}
+		}
+		sel, ok := ce.Fun.(*ast.SelectorExpr)
+		if !ok || len(ce.Args) != 2 || (sel.Sel.Name != "AppendDecode" && sel.Sel.Name != "AppendEncode") {
+			return true
+		}
+		tv, ok := nz.info.Types[sel.X]
+		if !ok || !isNamedPtr(tv.Type, "encoding/base64", "Encoding") {
+			return true
+		}
+		if id, ok := ce.Args[0].(*ast.Ident); !ok || id.Name != "nil" {
+			return true
+		}
+		if sel.Sel.Name == "AppendDecode" {
+			c.Replace(&ast.CallExpr{Fun: &ast.SelectorExpr{X: sel.X, Sel: ast.NewIdent("DecodeString")},
+				Args: []ast.Expr{&ast.CallExpr{Fun: ast.NewIdent("string"), Args: []ast.Expr{ce.Args[1]}}}})
+		} else {
+			c.Replace(&ast.CallExpr{Fun: &ast.ArrayType{Elt: ast.NewIdent("byte")},
+				Args: []ast.Expr{&ast.CallExpr{Fun: &ast.SelectorExpr{X: sel.X, Sel: ast.NewIdent("EncodeToString")}, Args: []ast.Expr{ce.Args[1]}}}})
+		}
+		nz.changed[f] = true
+		nz.log = append(nz.log, "base64 "+sel.Sel.Name+"(nil, x) written with the string form")
+		return true
+	})
 }
